@@ -1150,7 +1150,7 @@ impl<'comments> Formatter<'comments> {
             UntypedExpr::FieldAccess {
                 label, container, ..
             } => self
-                .expr(container, false)
+                .postfix_container(container)
                 .append(".")
                 .append(label.as_str()),
 
@@ -1175,12 +1175,12 @@ impl<'comments> Formatter<'comments> {
             UntypedExpr::TupleIndex { index, tuple, .. } => {
                 let suffix = Ordinal(*index + 1).suffix().to_doc();
 
-                let expr_doc = self.expr(tuple, false);
-
                 let maybe_wrapped_expr = if matches!(&**tuple, UntypedExpr::PipeLine { .. }) {
+                    let expr_doc = self.expr(tuple, false);
+
                     wrap_args(vec![(expr_doc, false)]).group()
                 } else {
-                    expr_doc
+                    self.postfix_container(tuple)
                 };
 
                 maybe_wrapped_expr
@@ -1379,7 +1379,7 @@ impl<'comments> Formatter<'comments> {
             false
         };
 
-        self.expr(fun, false)
+        self.postfix_container(fun)
             .append(wrap_args(
                 args.iter()
                     .map(|a| (self.call_arg(a, needs_curly), needs_curly)),
@@ -2211,6 +2211,17 @@ impl<'comments> Formatter<'comments> {
         match op {
             UnOp::Not => docvec!["!", self.wrap_unary_op(value)],
             UnOp::Negate => docvec!["-", self.wrap_unary_op(value)],
+        }
+    }
+
+    /// The expression a postfix form (call, field access, tuple index) applies to.
+    /// Operators bind looser than any postfix form, so they keep their parentheses.
+    fn postfix_container<'a>(&mut self, expr: &'a UntypedExpr) -> Document<'a> {
+        match expr {
+            UntypedExpr::PipeLine { .. } | UntypedExpr::BinOp { .. } | UntypedExpr::UnOp { .. } => {
+                "(".to_doc().append(self.expr(expr, false)).append(")")
+            }
+            _ => self.expr(expr, false),
         }
     }
 
